@@ -168,30 +168,37 @@ def run(prop, tier, replay):
         scenarios = [payload["case"]["scenario"]]
     else:
         steps = 3 if quick else 4
-        gens = {}
-
-        def g(p):
-            return p, _gen(f"{prop}-{p[0]}", p[0], p[1], "GenPrint QryPrint PoolPrint")
-
-        with cf.ThreadPoolExecutor(max_workers=2) as ex:
-            for p, r in ex.map(g, [(1, steps), (2, 0), (3, 0)]):
-                gens[p[0]] = r
-        hists = sorted(gens[1]["SCN"], key=json.dumps)
-        queries = sorted(gens[1]["QRY"][0], key=json.dumps)
-        pools = {pid: gens[pid]["POOL"][0] for pid in gens}
+        gen = _gen(f"{prop}-gen", 1, steps, "GenPrint QryPrint PoolPrint")
+        hists = sorted(gen["SCN"], key=json.dumps)
+        queries = sorted(gen["QRY"][0], key=json.dumps)
+        pools = {i + 1: p for i, p in enumerate(gen["POOL"][0])}
         by_kind = {}
         for q in queries:
             by_kind.setdefault(kind(q), []).append(q)
         if not hists or len(queries) < 100 or set(by_kind) != {"match-or", "match-and", "phrase", "bool"}:
             raise vlib.ToolError("scenario generation produced nothing")
-        useful = [h for h in hists if any(s["op"] == "index" for s in h[:-1])]
+        useful = [h for h in hists if any(s["op"] == "index" for s in h)]
         nscn = 90 if quick else 1200
-        picked = rnd.sample(useful, min(len(useful), nscn))
+
+        def after_index(h, op):
+            i = next((j for j, s in enumerate(h) if s["op"] == "index"), None)
+            return i is not None and any(s["op"] == op for s in h[i + 1:])
+
+        # strata: every kind of step after the index was built must be well represented
+        picked = []
+        for op in ("optimize", "compact", "append", "delete"):
+            stratum = [h for h in useful if after_index(h, op) and h not in picked]
+            picked += rnd.sample(stratum, min(len(stratum), nscn // 5))
+        both = [h for h in useful if after_index(h, "append") and h[-1]["op"] == "optimize" and h not in picked]
+        picked += rnd.sample(both, min(len(both), nscn // 10))
+        rest = [h for h in useful if h not in picked]
+        picked += rnd.sample(rest, max(0, min(len(rest), nscn - len(picked))))
+        rnd.shuffle(picked)
         scenarios = [build_scenario(i + 1, h, pools[1 + (i + vlib.seed()) % 3], by_kind, rnd, nq=4 if quick else 6)
                      for i, h in enumerate(picked)]
-        gen_info = {"histories_generated_by_tlc": len(hists), "histories_with_index_before_last_step": len(useful),
+        gen_info = {"histories_generated_by_tlc": len(hists), "histories_with_index": len(useful),
                     "histories_replayed": len(picked), "query_universe": {k: len(v) for k, v in by_kind.items()},
-                    "history_steps": steps, "gen_stats": gens[1]["stats"]}
+                    "history_steps": steps, "gen_stats": gen["stats"]}
     reports, scn_file, build_s = run_traces(prop, scenarios, shards=4 if quick else 8, mutate=mutate)
     collect_mc()
     by_id = {s["id"]: s for s in scenarios}
